@@ -98,6 +98,24 @@ def run(ctx):
     res = cr.sweep(ctx, PID, exe, jobs, job_ops, oracle)
     for job, ops, tr, bad, info in res:
         ctx.count("delay_points_checked", info.get("delay_points", 0))
+    # ---- streams longer than an int can count (2^31 and 2^32 frames): samples_in / samples_out are 64-bit and the frames owed at
+    #      end-of-input are computed from them; silence through the real engine in large calls (`fast 1`: input not synthesised, output
+    #      not hashed), every call replayed through the count model, delay read before and after end-of-input and after the drain
+    ljobs = [{"cfg": {"ir": "1.0", "or": "1.0", "recipe": 4, "itype": 0, "otype": 0}, "env": {}, "N": 2 ** 31 + 1000, "blk": 1 << 22, "seed": 0, "idx": 0, "style": "long"}]
+    if not ctx.quick:
+        ljobs += [{"cfg": {"ir": "1.0", "or": "1.0", "recipe": 1, "itype": 3, "otype": 3}, "env": {}, "N": 2 ** 32 + 777, "blk": 1 << 22, "seed": 0, "idx": 1, "style": "long"},
+                  {"cfg": {"ir": "2.0", "or": "1.0", "recipe": 1, "itype": 0, "otype": 0}, "env": {}, "N": 2 ** 32 + 2000, "blk": 8192, "seed": 0, "idx": 2, "style": "long"}]
+
+    def long_ops(job, plan):
+        N, blk = job["N"], job["blk"]
+        room = int(blk / cr.io_ratio(job["cfg"])) + 64
+        ops = [cr.create_line(job["cfg"]), "limit %d" % N, "fast 1"]
+        ops += ["feed %d %d 0" % (blk, room)] * (N // blk)
+        ops += ["feed %d %d 0" % (blk, room), "delay", "feed 0 %d 0" % room, "delay", "drain %d" % room, "delay"]
+        return ops
+    res1 = cr.sweep(ctx, PID, exe, ljobs, long_ops, oracle, timeout=600 if ctx.quick else 3600)
+    ctx.count("long_stream_jobs", len(res1))
+    ctx.cov["long_stream_frames"] = [j["N"] for j in ljobs]
     # ---- end-of-input at EVERY stream length: whether a frame has been handed out that the final total does not contain depends on
     #      where in the output period the input stops, so each configuration is run for N = 0..span with everything available taken
     #      before end-of-input is said (generous room), delay read before and after.  Ratios: the grid of small ratios, factors whose
